@@ -1,6 +1,6 @@
 #!/bin/bash
 # tools/try_seed.sh <seed-dir> <prop> [<prop>...]: apply the patch to /repo, run the checks, undo.
-D="$1"; shift
+D="$(realpath "$1")"; shift
 cd /repo || exit 2
 git diff --quiet || { echo "repo dirty"; exit 2; }
 git apply "$D/patch.diff" || { echo "patch does not apply"; exit 2; }
